@@ -297,22 +297,90 @@ theorem stmt_wildcard_witness :
 `atoms` is the explicit expansion of a search space.  Each statement below is checked by
 evaluating the model, which the correspondence run ties to the code on the same inputs. -/
 
-/-- `contain_subset` is not the subset test on atoms: for a tool other than modelsearch it
-    returns `None` for a true subset (F14) … -/
-theorem contain_subset_none_witness :
+/-- `contain_subset` (after fix 87505a7), for EVERY tool value and every pair of search spaces on
+    which it does not raise: it returns a `bool` (the model's result type), and the answer is `True`
+    exactly when every atom of `b` outside TRANSITS (and, for modelsearch/None, outside the metabolite
+    peripherals) is an atom of `a` and the transits test `_subset_transits` succeeds.  So it agrees
+    with set inclusion on the structural part for every tool; the only remaining deviation is the
+    transits test (next theorem). -/
+theorem contain_subset_iff (a b : MF) (modelsearch v : Bool) (h : a.containSubset b modelsearch = .ok v) :
+    v = true ↔
+      (∀ x, x ∈ b.atoms → x.isTrans = false → (modelsearch = true → x.isMetPeri = false) → x ∈ a.atoms) ∧
+        subsetTransits a b = .ok true := by
+  obtain ⟨s, d, m, hp, rfl⟩ := containSubset_parts a b modelsearch v h
+  obtain ⟨hs, hd, hm⟩ := containParts_spec a b s d m hp
+  have hvalid : ∀ c md, Atom.peri c md ∈ b.atoms → md = "MET" ∨ md = "DRUG" := by
+    intro c md hx
+    unfold MF.containParts at hp
+    simp only [bind, Except.bind] at hp
+    split at hp
+    · cases hp
+    · split at hp
+      · cases hp
+      · split at hp
+        · cases hp
+        · rename_i r2 h2
+          obtain ⟨v2, _, _⟩ := extractPeripherals_spec _ _ h2
+          rw [mem_atoms_peri] at hx
+          obtain ⟨p, hpm, _, hmd⟩ := hx
+          obtain ⟨l, hl, hall⟩ := v2 p hpm
+          rw [hl] at hmd
+          exact hall md hmd
+  have hne : ("DRUG" : String) ≠ "MET" := by decide
+  constructor
+  · intro hv
+    simp only [Bool.and_eq_true, Bool.or_eq_true] at hv
+    obtain ⟨⟨hs', hd'⟩, hm'⟩ := hv
+    obtain ⟨sa, se, st, sl⟩ := hs.mp hs'
+    refine ⟨?_, st⟩
+    intro x hx hnt hmet
+    cases x with
+    | abs y => exact sa y hx
+    | elim y => exact se y hx
+    | lag y => exact sl y hx
+    | trans c d => simp [Atom.isTrans] at hnt
+    | peri c md =>
+      rcases hvalid c md hx with rfl | rfl
+      · rcases hm' with hms | hm''
+        · have := hmet hms; simp [Atom.isMetPeri] at this
+        · exact hm.mp hm'' c hx
+      · exact hd.mp hd' c hx
+  · rintro ⟨hall, st⟩
+    have hs' : s = true := hs.mpr ⟨fun y hy => hall _ hy rfl (fun _ => rfl), fun y hy => hall _ hy rfl (fun _ => rfl), st,
+      fun y hy => hall _ hy rfl (fun _ => rfl)⟩
+    have hd' : d = true := hd.mpr (fun c hc => hall _ hc rfl (fun _ => by simp [Atom.isMetPeri, hne]))
+    have hm' : modelsearch = true ∨ m = true := by
+      cases modelsearch with
+      | true => exact Or.inl rfl
+      | false => exact Or.inr (hm.mpr (fun c hc => hall _ hc rfl (fun h' => by cases h')))
+    simp only [hs', hd', Bool.and_true, Bool.true_and, Bool.or_eq_true]
+    exact hm'
+
+/-- the former F14 witness under the fixed code: a true subset is reported for every tool; a missing
+    metabolite peripheral matters exactly for the tools other than modelsearch -/
+theorem contain_subset_fixed_example :
     let a := mfOf [.absorption (.names ["FO", "ZO"])]
     let b := mfOf [.absorption (.names ["FO"])]
-    (∀ x, x ∈ b.atoms → x ∈ a.atoms) ∧
-      MF.containSubset a b true = .ok (some true) ∧ MF.containSubset a b false = .ok none := by
+    let bm := mfOf [.absorption (.names ["FO"]), .peripherals ⟨[1], .names ["MET"]⟩]
+    MF.containSubset a b true = .ok true ∧ MF.containSubset a b false = .ok true ∧
+      MF.containSubset a bm true = .ok true ∧ MF.containSubset a bm false = .ok false := by
   decide +kernel
 
-/-- … and it compares transit counts and depots separately. -/
+/-- The remaining deviation: transit counts and depots are compared separately. -/
 theorem contain_subset_transits_witness :
     let a := mfOf [.transits ⟨[1], .names ["DEPOT"]⟩, .transits ⟨[2], .names ["NODEPOT"]⟩]
     let b := mfOf [.transits ⟨[2], .names ["DEPOT"]⟩]
     Atom.trans 2 "DEPOT" ∈ b.atoms ∧ Atom.trans 2 "DEPOT" ∉ a.atoms ∧
-      MF.containSubset a b true = .ok (some true) := by
+      MF.containSubset a b true = .ok true ∧ MF.containSubset a b false = .ok true := by
   decide +kernel
+
+/-- `Transits.__eq__` (after fix bfc9c9b) on explicit depots: a `bool`, true exactly when the count
+    sets and the depot sets are equal. -/
+theorem transits_eq_spec (c1 c2 : List Nat) (d1 d2 : List String) :
+    ∃ r, Transits.eq ⟨c1, .names d1⟩ ⟨c2, .names d2⟩ = .ok r ∧
+      (r = true ↔ (∀ x, x ∈ c1 ↔ x ∈ c2) ∧ (∀ x, x ∈ d1 ↔ x ∈ d2)) := by
+  refine ⟨setEq c1 c2 && setEq d1 d2, rfl, ?_⟩
+  rw [Bool.and_eq_true, setEq_iff, setEq_iff]
 
 /-- `==` is not equality of the expanded spaces: it depends on how PERIPHERALS is split into
     statements. -/
@@ -322,7 +390,7 @@ theorem eq_peripherals_split_witness :
     sameAtoms a.atoms b.atoms = true ∧ MF.eq a b = .ok false := by
   decide +kernel
 
-/-- `==`, `-` raise on a wildcard; `+` raises on `PERIPHERALS(n,*)`. -/
+/-- `==`, `-` raise on a wildcard; `+` raises on `PERIPHERALS(n,*)` (still present). -/
 theorem wildcard_raises_witness :
     let a := mfOf [.absorption .wild]
     let b := mfOf [.absorption (.names ["FO"])]
@@ -330,11 +398,45 @@ theorem wildcard_raises_witness :
     MF.eq a b = .error .typeError ∧ (MF.sub a b).toOption = none ∧ (MF.add p b).toOption = none := by
   decide +kernel
 
-/-- `least_number_of_transformations(tool='modelsearch')` returns a metabolite peripheral. -/
-theorem lnt_metabolite_witness :
+/-- `least_number_of_transformations(tool='modelsearch')` (after fix e311de7) never returns a
+    metabolite-peripheral key `('PERIPHERALS', n, 'METABOLITE')`, for all search spaces. -/
+theorem lnt_modelsearch_pk_only (a b : MF) (ks : List Key) (h : MF.lnt a b true = .ok ks) :
+    ∀ key, key ∈ ks → ¬ (key.kind = "PERIPHERALS" ∧ key.length = 3) := by
+  unfold MF.lnt at h
+  simp only [bind, Except.bind] at h
+  cases h1 : lntHelper absorptionKind a.absorption b.absorption with
+  | error e => simp [h1] at h
+  | ok k1 =>
+    cases h2 : lntHelper eliminationKind a.elimination b.elimination with
+    | error e => simp [h1, h2] at h
+    | ok k2 =>
+      cases h3 : lntTransits a b with
+      | error e => simp [h1, h2, h3] at h
+      | ok k3 =>
+        cases h4 : lntPeripherals a b false with
+        | error e => simp [h1, h2, h3, h4] at h
+        | ok k4 =>
+          cases h5 : lntHelper lagtimeKind a.lagtime b.lagtime with
+          | error e => simp [h1, h2, h3, h4, h5] at h
+          | ok k5 =>
+            simp only [h1, h2, h3, h4, h5, if_true, pure, Except.pure, Except.ok.injEq] at h
+            subst h
+            intro key hk ⟨hkind, hlen⟩
+            simp only [List.mem_append] at hk
+            rcases hk with (((hk | hk) | hk) | hk) | hk
+            · have := lntHelper_shape _ _ _ _ h1 key hk; omega
+            · have := lntHelper_shape _ _ _ _ h2 key hk; omega
+            · have := lntTransits_shape a b _ h3 key hk; rw [this] at hkind; exact absurd hkind (by decide)
+            · have := lntPeripherals_drug_shape a b _ h4 key hk; omega
+            · have := lntHelper_shape _ _ _ _ h5 key hk; omega
+
+/-- the former witness under the fixed code: modelsearch gets the pk transformation only, `tool=None`
+    additionally the metabolite peripheral -/
+theorem lnt_fixed_example :
     let a := mfOf [.absorption (.names ["FO"])]
     let b := mfOf [.absorption (.names ["ZO"]), .peripherals ⟨[1], .names ["MET"]⟩]
-    MF.lnt a b = .ok [["ABSORPTION", "ZO"], ["PERIPHERALS", "1", "METABOLITE"]] := by
+    MF.lnt a b true = .ok [["ABSORPTION", "ZO"]] ∧
+      MF.lnt a b false = .ok [["ABSORPTION", "ZO"], ["PERIPHERALS", "1", "METABOLITE"]] := by
   decide +kernel
 
 /-- where `+`, `-` do agree with set operations: a sample with every category, ranges and both
